@@ -232,7 +232,7 @@ fn run_selftest(ctx: &Ctx, env: Option<&Env>, shim_log: Option<&Path>) -> (Strin
         cmd.env("VERIF_SHIM_LOG", l);
     }
     let child = cmd.spawn().unwrap_or_else(|e| vhcore::machinery_failure(&format!("spawn selftest: {e}")));
-    let Some(out) = wait_with_timeout(child, Duration::from_secs(120)) else {
+    let Some(out) = wait_with_timeout(child, Duration::from_secs(900)) else {
         vhcore::machinery_failure("selftest timed out")
     };
     if !out.status.success() {
@@ -616,7 +616,7 @@ fn run_build(ctx: &Ctx, pkg: &Pkg, profile: &str, env: &Env, tag: &str) -> Build
         Ok(c) => c,
         Err(e) => return BuildRes { ok: false, err: format!("spawn: {e}"), json: None, wall_ms: 0 },
     };
-    let Some(o) = wait_with_timeout(child, Duration::from_secs(900)) else {
+    let Some(o) = wait_with_timeout(child, Duration::from_secs(3600)) else {
         return BuildRes { ok: false, err: "timeout".into(), json: None, wall_ms: t0.elapsed().as_millis() };
     };
     let wall_ms = t0.elapsed().as_millis();
@@ -738,6 +738,16 @@ fn run(a: &vhcore::Args) -> i32 {
 
     // ---- 2. packages
     let mut pkgs = hand_written(&ctx);
+    // debugging aid: VH_C15_ONLY=a,b keeps only the hand-written packages whose name contains one of
+    // the given strings (the run is then reported as not exhaustive)
+    let only: Option<Vec<String>> = std::env::var("VH_C15_ONLY").ok().map(|s| s.split(',').map(|x| x.trim().to_string()).collect());
+    if let Some(o) = &only {
+        pkgs.retain(|p| o.iter().any(|x| p.name.contains(x.as_str())));
+        if pkgs.is_empty() {
+            vhcore::machinery_failure("VH_C15_ONLY matches no package");
+        }
+        rep.cap(&format!("VH_C15_ONLY={} — only these packages were built", o.join(",")));
+    }
     let envs_full = envs_for(k);
     let ref_env = Env { seed: 0, aslr: true, threads: 1 };
     // reference builds (also write Forc.lock once, so that the parallel builds only read the package directory)
@@ -761,7 +771,7 @@ fn run(a: &vhcore::Args) -> i32 {
 
     // ---- audit of one real build under strace: which randomness / threads does a build use?
     if Command::new("strace").arg("-V").output().map(|o| o.status.success()).unwrap_or(false) {
-        let p = &pkgs[2];
+        let p = pkgs.iter().find(|p| p.name == "c15_predicate").unwrap_or(&pkgs[0]);
         let tr = ctx.work.join("audit.trace");
         let log = ctx.work.join("audit.shim.log");
         let out = ctx.work.join("runs").join("audit.json");
@@ -882,6 +892,10 @@ fn run(a: &vhcore::Args) -> i32 {
         build_ms.push(r.wall_ms);
         by_case.entry((*pi, pr)).or_default().push((e.clone(), artefacts(r.json.as_ref().unwrap())));
     }
+    if let Some(t) = failures.iter().find(|f| f.ends_with(": timeout")) {
+        // cannot tell a hang from an overloaded machine: never a verdict
+        vhcore::machinery_failure(&format!("a build did not finish within the watchdog time: {t}"));
+    }
     if !failures.is_empty() {
         // the same package built in the reference environment: a failure in another environment is
         // itself a nondeterminism of the build
@@ -940,7 +954,7 @@ fn run(a: &vhcore::Args) -> i32 {
         let key = pkgs.iter().find(|p| p.name == name).map(|p| p.key.clone()).unwrap_or_else(|| name.to_string());
         rep.violation(&format!("C15|{key}|build-fails-in-some-environment"), f, json!({"failure": f}));
     }
-    if by_case.is_empty() || distinct_bytecodes.len() < 2 {
+    if by_case.is_empty() || (distinct_bytecodes.len() < 2 && rep.violation_count() == 0) {
         vhcore::machinery_failure("vacuity guard: fewer than 2 distinct bytecodes were produced");
     }
     if results.len() != expected {
@@ -956,13 +970,13 @@ fn run(a: &vhcore::Args) -> i32 {
     rep.set("debug_symbols_obj_differences_not_part_of_the_property", debug_obj_varies);
     rep.set("median_build_ms", build_ms.get(build_ms.len() / 2).copied().unwrap_or(0) as u64);
     rep.set("shim_calls_in_selftests", shim_calls);
-    rep.sample(json!({"package": "c15_dedup_script", "profile": "release", "env": ref_env.json(), "bytecode_bytes": artefacts(&ref_json[&("c15_dedup_script".to_string(), "release".to_string())])["bytecode"].len() / 2 - 1}));
+    rep.sample(json!({"package": pkgs[0].name, "profile": "release", "env": ref_env.json(), "bytecode_bytes": artefacts(&ref_json[&(pkgs[0].name.clone(), "release".to_string())])["bytecode"].len() / 2 - 1}));
     for (i, ((pi, pr, e), r)) in tasks.iter().zip(results.iter()).enumerate() {
         if i % (tasks.len() / 6).max(1) == 0 && r.ok {
             rep.sample(json!({"package": pkgs[*pi].name, "profile": pr, "env": e.json(), "identical_to_reference": artefacts(r.json.as_ref().unwrap()).iter().filter(|(k, _)| k.as_str() != "file:debug_symbols.obj").all(|(k, v)| artefacts(&ref_json[&(pkgs[*pi].name.clone(), pr.to_string())]).get(k) == Some(v))}));
         }
     }
-    rep.set("exhaustive", true);
+    rep.set("exhaustive", only.is_none());
     rep.assume("2^128 hash seeds cannot be enumerated: K forced seeds give K independent iteration orders for every std HashMap/HashSet; hashers that do not draw from the OS (FxHash, ahash's fixed fallback keys mixed with addresses) are covered only by the ASLR on/off dimension");
     rep.assume("the shim replaces getrandom(), getentropy() and syscall(SYS_getrandom) with a pure function of VERIF_SEED (the same bytes on every call, so all threads get the same keys); AT_RANDOM (16 kernel bytes used by glibc for the stack protector) is not controlled");
     rep.assume("the compile path of forc-pkg/sway-core spawns no worker threads and does not use rayon (checked by grep; RAYON_NUM_THREADS is kept as a dimension because indexmap's rayon feature is enabled), so 'thread timing' has nothing to act on in a single build");
